@@ -142,7 +142,10 @@ func (la *ShareAvailability) SharesAvailable(ctx context.Context, header *header
 
 	smpls, errGetSamples := la.getter.GetSamples(samplingCtx, header, idxs)
 	if len(smpls) == 0 {
-		return share.ErrNotAvailable
+		// Nothing was retrieved (getters return no samples at all in that case): every requested
+		// coordinate stays pending. Fall through so that the drawn coordinates are stored and a
+		// retry asks for the same ones instead of drawing new ones.
+		smpls = make([]shwap.Sample, len(idxs))
 	}
 
 	var failedSamples []shwap.SampleCoords
